@@ -201,9 +201,9 @@ func (e *gateEnv) lease(did dtypes.DeploymentID, g *dtypes.Group) error {
 // them), then the query is released and the manager validates them together.
 // Returns the reply of every Service.Submit (nil = accepted) and the version hash of every manifest the provider
 // announced on the bus for this deployment.
-func (e *gateEnv) play(groups []dtypes.Group, chain []byte, updates [][]byte, subs []manifest.Manifest, batch bool) ([]error, []string, error) {
+func (e *gateEnv) play(groups []dtypes.Group, chain []byte, updates [][]byte, subs []manifest.Manifest, batch bool, held int) ([]error, []string, error) {
 	dseq := e.next
-	e.next += 2
+	e.next += 4
 	did := dtypes.DeploymentID{Owner: e.owner, DSeq: dseq}
 	for i := range groups {
 		groups[i].GroupID.Owner = e.owner
@@ -215,7 +215,7 @@ func (e *gateEnv) play(groups []dtypes.Group, chain []byte, updates [][]byte, su
 		Deployment: dtypes.Deployment{DeploymentID: did, State: dtypes.DeploymentActive, Version: chain},
 		Groups:     groups,
 	}
-	if batch {
+	if batch || held > 0 {
 		h = &hold{entered: make(chan struct{}), release: make(chan struct{})}
 		e.q.holds[dseq] = h
 	}
@@ -239,22 +239,50 @@ func (e *gateEnv) play(groups []dtypes.Group, chain []byte, updates [][]byte, su
 		return nil, nil, err
 	}
 	sentinel := dtypes.DeploymentID{Owner: e.owner, DSeq: dseq + 1}
-	if len(updates) > 0 {
-		for _, v := range updates {
+	sentinel2 := dtypes.DeploymentID{Owner: e.owner, DSeq: dseq + 2}
+	// deliver publishes update events and returns once they have been handed to the manager of did: a lease on a
+	// sentinel deployment is published after them; once ITS manager exists the service loop is past the updates
+	deliver := func(ups [][]byte, sent dtypes.DeploymentID) error {
+		for _, v := range ups {
 			if err := e.bus.Publish(dtypes.NewEventDeploymentUpdated(did, v)); err != nil {
+				return err
+			}
+		}
+		if err := e.lease(sent, g); err != nil {
+			return err
+		}
+		return e.waitActive(sent)
+	}
+	if err := e.waitActive(did); err != nil {
+		return nil, nil, err
+	}
+	if held > 0 && !batch {
+		// the first `held` updates reach the manager while its chain query is still in flight, the others after the
+		// answer: a refused probe submission (empty manifest) is answered only once the fetched data is in place
+		select {
+		case <-h.entered:
+		case <-time.After(20 * time.Second):
+			return nil, nil, errors.New("the manager never queried the chain for the deployment")
+		}
+		if err := deliver(updates[:held], sentinel); err != nil {
+			return nil, nil, err
+		}
+		release()
+		ctx, cancel := context.WithTimeout(context.Background(), 20*time.Second)
+		perr := e.svc.Submit(ctx, did, nil)
+		cancel()
+		if perr == nil || errors.Is(perr, context.DeadlineExceeded) || errors.Is(perr, pmanifest.ErrNotRunning) {
+			return nil, nil, fmt.Errorf("probe submission: %v", perr)
+		}
+		if len(updates) > held {
+			if err := deliver(updates[held:], sentinel2); err != nil {
 				return nil, nil, err
 			}
 		}
-		// a lease on a sentinel deployment, published after the updates: once its manager exists the updates
-		// have been handed to the manager of did
-		if err := e.lease(sentinel, g); err != nil {
+	} else if len(updates) > 0 {
+		if err := deliver(updates, sentinel); err != nil {
 			return nil, nil, err
 		}
-		if err := e.waitActive(sentinel); err != nil {
-			return nil, nil, err
-		}
-	} else if err := e.waitActive(did); err != nil {
-		return nil, nil, err
 	}
 
 	replies := make([]error, len(subs))
@@ -317,6 +345,7 @@ func (e *gateEnv) play(groups []dtypes.Group, chain []byte, updates [][]byte, su
 	_ = e.bus.Publish(dtypes.NewEventDeploymentClosed(did))
 	if len(updates) > 0 {
 		_ = e.bus.Publish(dtypes.NewEventDeploymentClosed(sentinel))
+		_ = e.bus.Publish(dtypes.NewEventDeploymentClosed(sentinel2))
 	}
 	e.q.mu.Lock()
 	delete(e.q.deployments, dseq)
@@ -392,15 +421,19 @@ var scenarios = []struct {
 	chain   string
 	updates []string
 	sub     string
+	held    int // how many of the updates reach the manager BEFORE its chain query returns (0: all after)
 }{
-	{"chain=m", "m", nil, "m"},
-	{"chain=alt", "alt", nil, "m"},
-	{"chain=alt,upd=m", "alt", []string{"m"}, "m"},
-	{"chain=m,upd=alt", "m", []string{"alt"}, "m"},
-	{"chain=m,upd=alt,m", "m", []string{"alt", "m"}, "m"},
-	{"chain=m,upd=m,alt", "m", []string{"m", "alt"}, "alt"},
-	{"chain=m,sub=alt", "m", nil, "alt"},
-	{"chain=alt,upd=m,alt", "alt", []string{"m", "alt"}, "m"}, // the submitted hash was current once, is not any more
+	{"chain=m", "m", nil, "m", 0},
+	{"chain=alt", "alt", nil, "m", 0},
+	{"chain=alt,upd=m", "alt", []string{"m"}, "m", 0},
+	{"chain=m,upd=alt", "m", []string{"alt"}, "m", 0},
+	{"chain=m,upd=alt,m", "m", []string{"alt", "m"}, "m", 0},
+	{"chain=m,upd=m,alt", "m", []string{"m", "alt"}, "alt", 0},
+	{"chain=m,sub=alt", "m", nil, "alt", 0},
+	{"chain=alt,upd=m,alt", "alt", []string{"m", "alt"}, "m", 0}, // the submitted hash was current once, is not any more
+	{"chain=alt,upd=m|alt", "alt", []string{"m", "alt"}, "m", 1}, // same; the first update arrives before the fetched data, the second after
+	{"chain=m,upd=alt|m", "m", []string{"alt", "m"}, "m", 1},
+	{"chain=m,upd=m|alt", "m", []string{"m", "alt"}, "alt", 1},
 }
 
 func altManifest(m manifest.Manifest) manifest.Manifest {
@@ -412,6 +445,108 @@ func altManifest(m manifest.Manifest) manifest.Manifest {
 		m[0].Name += "" // no service to alter: alt == m, scenarios degenerate harmlessly
 	}
 	return m
+}
+
+// HistStep is one step of a history on ONE deployment.
+type HistStep struct {
+	Op       string          `json:"op"`   // sub | upd
+	What     string          `json:"what"` // m | alt
+	Hid      int             `json:"hid"`  // hash id of the submitted manifest / of the version in the update event
+	M        json.RawMessage `json:"m"`    // abstract manifest submitted ([] for upd)
+	Accepted bool            `json:"accepted"`
+	Ann      []int           `json:"ann"` // hash ids announced on the bus between this step and the next
+	Err      string          `json:"err,omitempty"`
+}
+
+// HistLine is one observation of kind "history": submissions and deployment-version updates interleaved on one
+// deployment, e.g. M1 accepted at v1, update to v2, M1 again (must be refused), update back to v1, M1 again (accepted).
+type HistLine struct {
+	Kind     string          `json:"kind"`
+	ID       int             `json:"id"`
+	Scenario string          `json:"scenario"`
+	Scheme   int             `json:"scheme"`
+	Ballast  bool            `json:"ballast"`
+	D        json.RawMessage `json:"d"`
+	M        json.RawMessage `json:"m"`
+	Chain    int             `json:"chain"`
+	Steps    []HistStep      `json:"steps"`
+}
+
+var histories = []struct {
+	name  string
+	chain string
+	steps []string // "sub:m", "upd:alt", ...
+}{
+	{"hist chain=m: m,upd alt,m,alt,upd m,m", "m", []string{"sub:m", "upd:alt", "sub:m", "sub:alt", "upd:m", "sub:m"}},
+	{"hist chain=alt: m,alt,upd m,alt,m,upd alt,m", "alt", []string{"sub:m", "sub:alt", "upd:m", "sub:alt", "sub:m", "upd:alt", "sub:m"}},
+}
+
+// history plays a script on one fresh deployment. Every update is followed by a fresh sentinel lease (see play).
+func (e *gateEnv) history(groups []dtypes.Group, chain []byte, ops []string, vers [][]byte, mans []manifest.Manifest) ([]error, [][]string, error) {
+	dseq := e.next
+	e.next += uint64(2 + len(ops))
+	did := dtypes.DeploymentID{Owner: e.owner, DSeq: dseq}
+	for i := range groups {
+		groups[i].GroupID.Owner = e.owner
+		groups[i].GroupID.DSeq = dseq
+	}
+	e.q.mu.Lock()
+	e.q.deployments[dseq] = &dtypes.QueryDeploymentResponse{
+		Deployment: dtypes.Deployment{DeploymentID: did, State: dtypes.DeploymentActive, Version: chain},
+		Groups:     groups,
+	}
+	e.q.mu.Unlock()
+	var g *dtypes.Group
+	if len(groups) > 0 {
+		g = &groups[0]
+	} else {
+		g = &dtypes.Group{GroupID: dtypes.GroupID{Owner: e.owner, DSeq: dseq, GSeq: 1}, GroupSpec: dtypes.GroupSpec{Name: "none"}}
+	}
+	if err := e.lease(did, g); err != nil {
+		return nil, nil, err
+	}
+	if err := e.waitActive(did); err != nil {
+		return nil, nil, err
+	}
+	replies := make([]error, len(ops))
+	anns := make([][]string, len(ops))
+	var sentinels []dtypes.DeploymentID
+	for i, op := range ops {
+		if op == "upd" {
+			if err := e.bus.Publish(dtypes.NewEventDeploymentUpdated(did, vers[i])); err != nil {
+				return nil, nil, err
+			}
+			sentinel := dtypes.DeploymentID{Owner: e.owner, DSeq: dseq + 1 + uint64(i)}
+			sentinels = append(sentinels, sentinel)
+			if err := e.lease(sentinel, g); err != nil {
+				return nil, nil, err
+			}
+			if err := e.waitActive(sentinel); err != nil {
+				return nil, nil, err
+			}
+		} else {
+			ctx, cancel := context.WithTimeout(context.Background(), 20*time.Second)
+			res := e.svc.Submit(ctx, did, mans[i])
+			cancel()
+			if res != nil && (errors.Is(res, context.DeadlineExceeded) || errors.Is(res, pmanifest.ErrNotRunning)) {
+				return nil, nil, fmt.Errorf("submission was not answered: %v", res)
+			}
+			replies[i] = res
+		}
+		a, err := e.announced(dseq)
+		if err != nil {
+			return nil, nil, err
+		}
+		anns[i] = a
+	}
+	_ = e.bus.Publish(dtypes.NewEventDeploymentClosed(did))
+	for _, s := range sentinels {
+		_ = e.bus.Publish(dtypes.NewEventDeploymentClosed(s))
+	}
+	e.q.mu.Lock()
+	delete(e.q.deployments, dseq)
+	e.q.mu.Unlock()
+	return replies, anns, nil
 }
 
 // bumpAbs is the abstract manifest with one more replica in its first service (nil if there is none).
@@ -431,7 +566,7 @@ func bumpAbs(m []Grp) []Grp {
 
 // RunGate runs every single-submission scenario and every batch scenario for one pair under one scheme.
 func (e *gateEnv) RunGate(id int, p *Pair, rawD, rawM json.RawMessage, s int, hashes *interner,
-	emit func(GateLine) error, emitBatch func(BatchLine) error) error {
+	emit func(GateLine) error, emitBatch func(BatchLine) error, emitHist func(HistLine) error) error {
 	build := func(what string) (manifest.Manifest, json.RawMessage, error) {
 		switch what {
 		case "alt":
@@ -490,7 +625,7 @@ func (e *gateEnv) RunGate(id int, p *Pair, rawD, rawM json.RawMessage, s int, ha
 		if sc.sub == "alt" {
 			sub = alt
 		}
-		replies, ann, herr := e.play(groups, []byte(pick(sc.chain)), ups, []manifest.Manifest{sub}, false)
+		replies, ann, herr := e.play(groups, []byte(pick(sc.chain)), ups, []manifest.Manifest{sub}, false, sc.held)
 		if herr != nil {
 			return fmt.Errorf("gate scenario %q of pair %d: %v", sc.name, id, herr)
 		}
@@ -543,7 +678,7 @@ func (e *gateEnv) RunGate(id int, p *Pair, rawD, rawM json.RawMessage, s int, ha
 		if skip {
 			continue
 		}
-		replies, ann, herr := e.play(groups, []byte(vc), nil, subs, true)
+		replies, ann, herr := e.play(groups, []byte(vc), nil, subs, true, 0)
 		if herr != nil {
 			return fmt.Errorf("%q of pair %d: %v", bc.name, id, herr)
 		}
@@ -556,6 +691,55 @@ func (e *gateEnv) RunGate(id int, p *Pair, rawD, rawM json.RawMessage, s int, ha
 		l := BatchLine{Kind: "batch", ID: id, Scenario: bc.name, Scheme: s, Ballast: Ballast(s), D: rawD, M: rawM,
 			Chain: hashes.id(vc), Updates: []int{}, Subs: bsubs, Announced: ids(ann)}
 		if err := emitBatch(l); err != nil {
+			return err
+		}
+	}
+	for _, hc := range histories {
+		groups, err := DGroups(p.D, s, e.owner, 0)
+		if err != nil {
+			return err
+		}
+		cm, _, err := build(hc.chain)
+		if err != nil {
+			return err
+		}
+		vc, err := version(cm)
+		if err != nil {
+			return err
+		}
+		ops := make([]string, len(hc.steps))
+		vers := make([][]byte, len(hc.steps))
+		mans := make([]manifest.Manifest, len(hc.steps))
+		steps := make([]HistStep, len(hc.steps))
+		for i, st := range hc.steps {
+			op, what := st[:3], st[4:]
+			sm, raw, err := build(what)
+			if err != nil {
+				return err
+			}
+			v, err := version(sm)
+			if err != nil {
+				return err
+			}
+			ops[i], vers[i], mans[i] = op, []byte(v), sm
+			steps[i] = HistStep{Op: op, What: what, Hid: hashes.id(v), M: raw, Ann: []int{}}
+			if op == "upd" {
+				steps[i].M = json.RawMessage("[]")
+			}
+		}
+		replies, anns, herr := e.history(groups, []byte(vc), ops, vers, mans)
+		if herr != nil {
+			return fmt.Errorf("%q of pair %d: %v", hc.name, id, herr)
+		}
+		for i := range steps {
+			steps[i].Accepted = ops[i] == "sub" && replies[i] == nil
+			if replies[i] != nil {
+				steps[i].Err = replies[i].Error()
+			}
+			steps[i].Ann = ids(anns[i])
+		}
+		if err := emitHist(HistLine{Kind: "history", ID: id, Scenario: hc.name, Scheme: s, Ballast: Ballast(s), D: rawD, M: rawM,
+			Chain: hashes.id(vc), Steps: steps}); err != nil {
 			return err
 		}
 	}
